@@ -158,6 +158,72 @@ example : timedwaitMap 110 = .ret (-110) ∧ timedwaitMap 0 = .ret 0 ∧ timedwa
     barrierWaitMap (-1) = .ret 1 ∧ barrierWaitMap 0 = .ret 0 ∧ barrierWaitMap 22 = .abort := by
   decide
 
+/-! ## init wrappers under failing setup calls; the clock of `uv_hrtime` -/
+
+/-- **no half-configured condvar.**  `uv_cond_init` returns 0 exactly when all four setup calls
+    succeeded; a live condvar is left behind exactly in that case, and then its clock was set to
+    CLOCK_MONOTONIC (the clock `uv_cond_timedwait` computes the deadline on); with any failing
+    call the wrapper returns that call's code negated (never 0, never aborts) and leaves no
+    condvar behind. -/
+theorem cond_init_all_or_nothing (a b c d : Int) :
+    ((condInit a b c d).1 = .ret 0 ↔ (a = 0 ∧ b = 0 ∧ c = 0 ∧ d = 0)) ∧
+    ((condInit a b c d).2.1 = true ↔ (condInit a b c d).1 = .ret 0) ∧
+    ((condInit a b c d).2.1 = true → (condInit a b c d).2.2 = true) ∧
+    (condInit a b c d).1 ≠ .abort ∧
+    (¬(a = 0 ∧ b = 0 ∧ c = 0 ∧ d = 0) → ∃ e, e ≠ 0 ∧ (e = a ∨ e = b ∨ e = c ∨ e = d) ∧
+        (condInit a b c d).1 = .ret (-e)) := by
+  unfold condInit
+  by_cases ha : a = 0 <;> by_cases hb : b = 0 <;> by_cases hc : c = 0 <;> by_cases hd : d = 0 <;>
+    simp [ha, hb, hc, hd] <;> first | omega | (try exact ⟨_, ‹_›, by simp, rfl⟩)
+
+/-- `uv_mutex_init_recursive`: returns 0 only if every call succeeded (and then the mutex is live
+    and RECURSIVE was applied); a failing attribute call aborts; a failing `pthread_mutex_init`
+    is reported and leaves no mutex. -/
+theorem rmutex_init_all_or_nothing (a b c d : Int) :
+    ((rmutexInit a b c d).1 = .ret 0 ↔ (a = 0 ∧ b = 0 ∧ c = 0 ∧ d = 0)) ∧
+    ((rmutexInit a b c d).1 = .ret 0 → (rmutexInit a b c d).2 = (true, true)) ∧
+    ((a ≠ 0 ∨ b ≠ 0 ∨ d ≠ 0) ↔ (rmutexInit a b c d).1 = .abort) := by
+  unfold rmutexInit
+  by_cases ha : a = 0 <;> by_cases hb : b = 0 <;> by_cases hc : c = 0 <;> by_cases hd : d = 0 <;>
+    simp [ha, hb, hc, hd] <;> omega
+
+/-- the one-call init wrappers and `uv_sem_init` report success iff the platform call succeeded -/
+theorem simple_init_exact (err r e : Int) :
+    ((simpleInit err).1 = .ret 0 ↔ err = 0) ∧ ((simpleInit err).2 = true ↔ err = 0) ∧
+    ((semInit r e).2 = true ↔ r = 0) ∧ (r = 0 → (semInit r e).1 = .ret 0) ∧
+    (r ≠ 0 → (semInit r e).1 = .ret (-e)) := by
+  unfold simpleInit semInit
+  by_cases h : err = 0 <;> by_cases hr : r = 0 <;> simp [h, hr] <;> omega
+
+/-- `uv_thread_create_ex` never creates a thread on a half-configured attribute object -/
+theorem attr_setup_exact (a b : Int) :
+    (attrSetup a b = none ↔ (a = 0 ∧ b = 0)) ∧ (attrSetup a b ≠ none → attrSetup a b = some .abort) := by
+  unfold attrSetup
+  by_cases ha : a = 0 <;> by_cases hb : b = 0 <;> simp [ha, hb]
+
+/-- **`uv_hrtime()` / the timed-wait deadline always read CLOCK_MONOTONIC**, whatever a
+    UV_CLOCK_FAST caller cached before and whatever `clock_getres` says; precise reads never touch
+    the cache; the fast clock is the coarse one only when its resolution is ≤ 1 ms, and once
+    chosen it stays. -/
+theorem precise_clock_is_monotonic (cache : Int) (res : Option Nat) :
+    hrtimeClock false cache res = (CLOCK_MONOTONIC, cache) ∧
+    (cache ≠ -1 → hrtimeClock true cache res = (cache, cache)) ∧
+    ((hrtimeClock true (-1) res).1 = CLOCK_MONOTONIC_COARSE ↔ ∃ ns, res = some ns ∧ ns ≤ 1000000) ∧
+    ((hrtimeClock true (-1) res).1 = CLOCK_MONOTONIC ∨ (hrtimeClock true (-1) res).1 = CLOCK_MONOTONIC_COARSE) := by
+  refine ⟨by simp [hrtimeClock], fun h => by simp [hrtimeClock, h], ?_, ?_⟩
+  · cases res with
+    | none => simp [hrtimeClock, CLOCK_MONOTONIC, CLOCK_MONOTONIC_COARSE]
+    | some ns =>
+      by_cases h : ns ≤ 1000000 <;> simp [hrtimeClock, CLOCK_MONOTONIC, CLOCK_MONOTONIC_COARSE, h]
+  · cases res with
+    | none => simp [hrtimeClock]
+    | some ns => by_cases h : ns ≤ 1000000 <;> simp [hrtimeClock, h]
+
+example : condInit 0 22 0 0 = (.ret (-22), false, false) ∧ condInit 0 0 0 0 = (.ret 0, true, true) ∧
+    condInit 0 0 0 12 = (.ret (-12), false, true) ∧ rmutexInit 0 22 0 0 = (.abort, false, false) ∧
+    hrtimeClock false 6 (some 1000000) = (1, 6) ∧ hrtimeClock true (-1) (some 1000000) = (6, 6) ∧
+    hrtimeClock true (-1) (some 4000000) = (1, 1) := by decide
+
 /-! ## stack size -/
 
 /-- `uv__min_stack_size` = max(8192, PTHREAD_STACK_MIN) -/
